@@ -591,7 +591,13 @@ def model_target(rng, api: str, idx: int):
     if api == "rewrite_ln":
         return {"api": "rewrite", "rules": "layernorm", "template": "layernorm", "params": g_layernorm(rng)}
     if api == "rewrite_rms":
-        return {"api": "rewrite", "rules": "rmsnorm", "template": "rmsnorm", "params": g_rmsnorm(rng)}
+        # strata: the precision the rule stashes (no Cast: the input's own type) — f32, f64, then free
+        p = g_rmsnorm(rng)
+        if idx % 3 == 0:
+            p["et"], p["cast_to"] = 1, None
+        elif idx % 3 == 1:
+            p["et"], p["cast_to"] = 11, None
+        return {"api": "rewrite", "rules": "rmsnorm", "template": "rmsnorm", "params": p}
     if api == "optimize":
         t, g = OPTIMIZE_SOURCES[idx % len(OPTIMIZE_SOURCES)]
         return {"api": "optimize", "template": t, "params": g(rng)}
@@ -687,6 +693,16 @@ def sibling_history(rng, target):
         if target["api"] == "convert":
             m["target_version"] = m["params"]["target"]
         out.append({"h": hname, "model": m})
+    if t == "rmsnorm":
+        # siblings of every OTHER precision (what a shared rule object may have stashed from an earlier match or from an
+        # earlier rejected candidate): f64 without Cast, f32 without Cast, f16 input with a Cast (rejected: f16 is not a
+        # stash type) and f32 with a Cast to f64
+        for et, ct in ((11, None), (1, None), (10, None), (1, 11)):
+            if (et, ct) == (target["params"].get("et"), target["params"].get("cast_to")):
+                continue
+            m = dict(target)
+            m["params"] = dict(g_rmsnorm(rng), et=et, cast_to=ct)
+            out.append({"h": hname, "model": m})
     for c in SETFAIL_FOR.get(t, []):
         out.insert(1, setfail_op(rng, c))
     if t == "reshape_reshape":
